@@ -2186,3 +2186,103 @@ def t_byte_unit(facts, res, tier):
                         res.fail(key, facts.where(fn, x), "%s compares `%s` with the byte offset `%s` but advances it by `%s` per character: non-ASCII text before the place makes the count lag behind (wrong line, or a slice bound inside a character: `--insert_code` with `c = '€';` panicked)" % (fn["name"], c, posp[0], rt[:30]))
     if n == 0:
         raise AnchorMissing("no counter compared with a source position while walking characters was found")
+
+
+# ----------------------------------------------------------------------------- grammar: atomic rules are lexical
+
+
+@rule("T-GRAMMAR-ATOMIC", floor=5,
+      text="white space and comments may separate any two tokens: in the grammar this is what a normal rule gives (pest inserts the implicit "
+           "WHITESPACE / COMMENT between the elements of a sequence).  Atomic (`@`) and compound-atomic (`$`) rules switch that off, also inside "
+           "every rule they reference, so they are used for lexical things only: no atomic or compound-atomic rule references a normal rule that "
+           "is itself a sequence of several elements (`identifier = ${ id_name ~ subscript? }` would forbid the blank in `tab [i]`)")
+def t_grammar_atomic(facts, res, tier):
+    rules = facts.grammar_rules()
+    builtin = lambda n: n.isupper() or n.startswith("ASCII") or n in ("ANY", "SOI", "EOI", "NEWLINE", "WHITESPACE", "COMMENT", "PUSH", "POP", "PEEK", "DROP")
+    def refs(e, out):
+        if isinstance(e, dict):
+            if e.get("k") == "ident":
+                out.add(e["v"])
+            for v in e.values():
+                refs(v, out)
+        elif isinstance(e, list):
+            for x in e:
+                refs(x, out)
+    def is_multi(e):
+        # a sequence of two or more elements somewhere at the top of the rule (through opt / rep / choice)
+        if not isinstance(e, dict):
+            return False
+        k = e.get("k")
+        if k == "seq":
+            return True
+        if k in ("opt", "rep", "rep1", "repn"):
+            return is_multi(e["e"])
+        if k == "choice":
+            return is_multi(e["a"]) or is_multi(e["b"])
+        return False
+    n = 0
+    for name, r in sorted(rules.items()):
+        if r.get("ty") not in ("atomic", "compound", "compound_atomic") or builtin(name):
+            continue
+        n += 1
+        out = set()
+        refs(r["expr"], out)
+        bad = []
+        for q in sorted(out):
+            if builtin(q) or q not in rules:
+                continue
+            rq = rules[q]
+            # (a) inside a referenced normal rule the implicit white space is switched off too
+            if rq.get("ty") in ("normal", "silent") and is_multi(rq["expr"]):
+                bad.append(q)
+        # (b) between two elements of the rule's own sequence there is no implicit white space either: a structural element
+        #     (an explicitly non-atomic rule, or a multi-token one) must be separated from its neighbours by an explicit WHITESPACE
+        def structural(e):
+            if isinstance(e, dict) and e.get("k") in ("opt", "rep", "rep1", "repn"):
+                return structural(e["e"])
+            if isinstance(e, dict) and e.get("k") == "ident" and e["v"] in rules and not builtin(e["v"]):
+                rq = rules[e["v"]]
+                return rq.get("ty") in ("non_atomic", "nonatomic") or (rq.get("ty") in ("normal", "silent") and is_multi(rq["expr"]))
+            return False
+        def is_ws(e):
+            if isinstance(e, dict) and e.get("k") in ("opt", "rep", "rep1", "repn"):
+                return is_ws(e["e"])
+            return isinstance(e, dict) and e.get("k") == "ident" and e["v"] in ("WHITESPACE", "COMMENT")
+        def seqs(e, acc):
+            # every sequence in the rule, flattened
+            if not isinstance(e, dict):
+                return
+            if e.get("k") == "seq":
+                flat = []
+                def fl(x):
+                    if isinstance(x, dict) and x.get("k") == "seq":
+                        fl(x["a"]); fl(x["b"])
+                    else:
+                        flat.append(x)
+                fl(e)
+                acc.append(flat)
+                for x in flat:
+                    seqs(x, acc)
+            else:
+                for v in e.values():
+                    if isinstance(v, dict):
+                        seqs(v, acc)
+        allseq = []
+        seqs(r["expr"], allseq)
+        for flat in allseq:
+            for i, x in enumerate(flat):
+                if structural(x):
+                    left = flat[i - 1] if i > 0 else None
+                    right = flat[i + 1] if i + 1 < len(flat) else None
+                    token = lambda y: isinstance(y, dict) and (y.get("k") in ("str", "ident", "opt", "rep", "rep1") and not is_ws(y))
+                    if (left is not None and token(left)) or (right is not None and token(right)):
+                        nm = x["v"] if x.get("k") == "ident" else (x["e"].get("v") if isinstance(x.get("e"), dict) else "?")
+                        if nm not in bad:
+                            bad.append(nm)
+        key = "T-GRAMMAR-ATOMIC:%s" % name
+        res.inst(key, True, {"rule": name, "kind": r.get("ty"), "references": sorted(x for x in out if not builtin(x))})
+        if bad:
+            res.fail(key, "src/cc6502.pest:%s" % r.get("line"), "the %s rule `%s` references the multi-token rule%s %s: no white space or comment is accepted between the tokens of `%s` and what it references any more (`tab [i]`, `tab/* c */[i]` become syntax errors)" % (
+                "compound-atomic" if r.get("ty") in ("compound", "compound_atomic") else "atomic", name, "s" if len(bad) > 1 else "", ", ".join("`%s`" % b for b in bad), name))
+    if n == 0:
+        raise AnchorMissing("no atomic rule found in the grammar")
